@@ -54,6 +54,9 @@ def _tests_perm(f, bit):
     return False
 
 
+PRELOAD_C = ['miasm/jitter/vm_mngr_py.c', 'miasm/jitter/vm_mngr.c', 'miasm/jitter/Jitgcc.c', 'miasm/jitter/Jitllvm.c']
+
+
 def run(ck):
     ck.rule("R1", "shared constant names have equal values in csts.py and vm_mngr.h", floor=12)
     ck.rule("R2", "same phase order in the three back ends", floor=3)
